@@ -168,6 +168,14 @@ class SwallowDomain(Domain):
         name = call_name(node)
         if name in ("self.close", "logger.debug", "time.time"):
             return [("ok", TOP, state)]
+        if self.only_receiver is not None and name.startswith("self._") and name.count(".") == 1 and self.fn is not None and self.fn.cls is not None:
+            # a private helper of the wrapper (e.g. a shared failure handler that says whether to re-raise)
+            m = self.prog.method(self.fn.cls, name[5:], required=False)
+            # (the failover bookkeeping itself - marking, evicting, reviving - is C13's subject and stays summarised)
+            if m is not None and m is not self.fn and name[5:] not in ("_mark_failed_server", "_retry_dead", "_get_client"):
+                res = self.inline(node, m, args, kwargs, state)
+                if res is not None:
+                    return res
         if self.only_receiver is not None:
             recv = name.split(".")[0]
             if recv not in self.only_receiver:
